@@ -4,12 +4,14 @@ import YkDrv.RingDrv
 import YkDrv.NodeDrv
 import YkDrv.StreamDrv
 import YkDrv.QueueDrv
+import YkDrv.CoreDrv
 open Lean YkDrv
 
 structure DrvState where
   ring : RingSt := {}
   node : NodeSt := {}
   queue : QueueSt := {}
+  core : CoreSt := {}
 
 def dispatch (st : DrvState) (j : Json) : Except String (DrvState × String) := do
   let c ← (fld j "c") >>= jStr
@@ -17,6 +19,7 @@ def dispatch (st : DrvState) (j : Json) : Except String (DrvState × String) := 
   | "res" => pure (st, ← resStep j)
   | "ring" => let (r, v) ← ringStep st.ring j; pure ({ st with ring := r }, v)
   | "stream" => pure (st, ← streamStep j)
+  | "core" => let (r, v) ← coreStep st.core j; pure ({ st with core := r }, v)
   | "queue" => let (r, v) ← queueStep st.queue j; pure ({ st with queue := r }, v)
   | "node" => let (r, v) ← nodeStep st.node j; pure ({ st with node := r }, v)
   | _ => pure (st, "bad-op")
@@ -35,7 +38,8 @@ partial def loop (h : IO.FS.Stream) (out : IO.FS.Stream) (st : DrvState) : IO Un
       | .ok (st', s) =>
         -- a panic recovered by the harness is always reported, whatever the model says
         let s := match j.getObjVal? "panic" with
-          | .ok _ => "panic " ++ (j.getObjValD "c").compress ++ " " ++ (j.getObjValD "op").compress ++ " | " ++ s
+          | .ok _ => "panic " ++ ((j.getObjValD "c").getStr?.toOption.getD "") ++ "." ++ ((j.getObjValD "op").getStr?.toOption.getD "") ++
+                     " ;; " ++ (if s.startsWith "inv " then (s.drop 4).toString else s)
           | .error _ => s
         out.putStrLn s; loop h out st'
       | .error e => out.putStrLn s!"bad-op {e}"; loop h out st
